@@ -22,6 +22,7 @@ Record obs := {
   o_perm : list N;             (* SanctionedAddresses listing *)
   o_temps : list entry;        (* TemporaryEntries listing *)
   o_live : list N;             (* proposals in deposit or voting period (gov keeper) *)
+  o_pinfo : list (N * (bool * bool)); (* of each of those: (in voting period, expedited) *)
   o_deps : list (N * amt2);    (* TotalDeposit of each of those proposals (denom A, denom B) *)
   o_bals : list (N * Z);       (* balances of the user accounts, denom A *)
   o_balsb : list (N * Z);      (* balances of the user accounts, denom B *)
@@ -71,15 +72,52 @@ Definition new_entries (prev ob : obs) : list entry :=
   filter (fun e : entry => let '(a, p, b) := e in negb (opt_eqb Bool.eqb (temp_lookup a p (o_temps prev)) (Some b)))
          (o_temps ob).
 
+Definition lookup_pinfo (l : list (N * (bool * bool))) (p : N) : bool * bool :=
+  match find (fun e => N.eqb (fst e) p) l with Some (_, v) => v | None => (false, false) end.
+
+(** ... or from the hook call the gov EndBlocker makes when it converts an expedited proposal
+    that did not pass into a regular one (the proposal is then still live, was expedited before
+    the step and is regular after it; the immediate minimum may have been changed by a proposal
+    that passed in the same block, so either value is accepted). *)
 Definition new_entries_funded (prev : obs) (o : op) (ob : obs) : bool :=
   forallb (fun e : entry => let '(_, p, b) := e in
                     let thr := if b : bool then o_smin ob else o_umin ob in
+                    let thr0 := if b : bool then o_smin prev else o_umin prev in
                     match o with
-                    | OSubmit _ _ _ _ _ | ODeposit _ _ _ _ =>
+                    | OSubmit _ _ _ _ _ _ | ODeposit _ _ _ _ =>
                         o_ok ob && negb (zero2 thr) && le2 thr (lookup_dep (o_deps ob) p)
+                    | ONewBlock _ _ =>
+                        o_ok ob && memN p (o_live ob) &&
+                        snd (lookup_pinfo (o_pinfo prev) p) && negb (snd (lookup_pinfo (o_pinfo ob) p)) &&
+                        ((negb (zero2 thr) && le2 thr (lookup_dep (o_deps ob) p)) ||
+                         (negb (zero2 thr0) && le2 thr0 (lookup_dep (o_deps ob) p)))
                     | _ => false
                     end)
           (new_entries prev ob).
+
+(** Addresses named by the sanction / unsanction messages of a proposal. *)
+Definition msgs_addrs (ms : list msg) : list N :=
+  flat_map (fun m => match m with MSanction l => l | MUnsanction l => l | MParams _ _ => [] end) ms.
+
+Definition reg_msgs (reg : list (N * list msg)) (p : N) : list msg :=
+  match find (fun e => N.eqb (fst e) p) reg with Some (_, ms) => ms | None => [] end.
+
+(** "A resolution cleans exactly its own entries": a temporary entry of a proposal that is still
+    live after the step may disappear only because a proposal naming its address was resolved in
+    this step (a PASSED proposal deletes every temporary entry of the addresses it names, by
+    design) or because a sanction message for its address was executed directly. *)
+Definition others_kept (reg : list (N * list msg)) (prev : obs) (o : op) (ob : obs) : bool :=
+  let resolved := filter (fun p => negb (memN p (o_live ob))) (o_live prev) in
+  let touched := match o with
+                 | ONewBlock _ _ => flat_map (fun p => msgs_addrs (reg_msgs reg p)) resolved
+                 | ODirect true m => msgs_addrs [m]
+                 | _ => []
+                 end in
+  forallb (fun e : entry => let '(a, q, _) := e in
+             negb (memN q (o_live ob)) ||
+             match temp_lookup a q (o_temps ob) with Some _ => true | None => false end ||
+             memN a touched)
+          (o_temps prev).
 
 Definition known_cancel_tag : string := "prop:cancelled proposal leaves temporary sanction entries in force".
 
@@ -97,7 +135,7 @@ Definition inflow_must_succeed (prev : obs) (o : op) : bool :=
   end.
 
 Definition prop_checks (unsanctionable universe users : list N) (cancelled : list N)
-           (prev : obs) (o : op) (ob : obs) : list string :=
+           (reg : list (N * list msg)) (prev : obs) (o : op) (ob : obs) : list string :=
   tag (forallb (fun a => Bool.eqb (memN a (o_sanct ob)) (status_from_listings ob a)) universe)
       "prop:sanction status is not what the latest temporary entry / permanent entry says" ++
   tag (protected_clean unsanctionable ob) "prop:protected account sanctioned" ++
@@ -108,7 +146,8 @@ Definition prop_checks (unsanctionable universe users : list N) (cancelled : lis
   tag (new_entries_funded prev o ob)
       "prop:temporary entry created although the deposit does not cover the whole immediate minimum" ++
   tag (negb (inflow_must_succeed prev o) || o_ok ob) "prop:transfer to a sanctioned account rejected" ++
-  tag (match o with ONewBlock _ => o_ok ob | _ => true end) "prop:governance end blocker failed" ++
+  tag (match o with ONewBlock _ _ => o_ok ob | _ => true end) "prop:governance end blocker failed" ++
+  tag (others_kept reg prev o ob) "prop:temporary entry of another live proposal removed" ++
   tag (match o with ODirect false _ => negb (o_ok ob) | _ => true end)
       "prop:sanction message accepted without the governance authority" ++
   tag (forallb (fun p => memN p cancelled) (stale_pids ob))
@@ -119,6 +158,9 @@ Definition corr_checks (c : config) (universe users : list N) (s' : state) (ob :
   tag (same_set (perm s') (o_perm ob)) "corr:permanent listing" ++
   tag (temps_agree (temps s') (o_temps ob)) "corr:temporary listing" ++
   tag (same_set (map p_id (props s')) (o_live ob)) "corr:live proposals" ++
+  tag (forallb (fun pr => let '(v, e) := lookup_pinfo (o_pinfo ob) (p_id pr) in
+                          Bool.eqb v (is_voting pr) && Bool.eqb e (p_expedited pr)) (props s'))
+      "corr:proposal status / expedited flag" ++
   tag (forallb (fun pr => amt2_eqb (total_deposit pr) (lookup_dep (o_deps ob) (p_id pr))) (props s')) "corr:total deposits" ++
   tag (forallb (fun a => Z.eqb (bal s' a) (lookup_bal (o_bals ob) a) && Z.eqb (balb s' a) (lookup_bal (o_balsb ob) a)) users) "corr:balances" ++
   tag (amt2_eqb (smin s') (o_smin ob) && amt2_eqb (umin s') (o_umin ob)) "corr:params".
@@ -127,7 +169,8 @@ Definition corr_checks (c : config) (universe users : list N) (s' : state) (ob :
     the checking of the rest of the history: it is reported (alone) only when nothing else fails
     anywhere in the history; otherwise the first step with any other failure is reported. *)
 Fixpoint check_hist (c : config) (universe users : list N) (s : state) (prev : obs)
-         (cancelled : list N) (i : N) (known : list string) (steps : list (op * obs)) : list string :=
+         (cancelled : list N) (reg : list (N * list msg)) (i : N) (known : list string)
+         (steps : list (op * obs)) : list string :=
   match steps with
   | [] => known
   | (o, ob) :: rest =>
@@ -136,14 +179,20 @@ Fixpoint check_hist (c : config) (universe users : list N) (s : state) (prev : o
                         | OCancel _ pid => if o_ok ob then pid :: cancelled else cancelled
                         | _ => cancelled
                         end in
+      let reg' := match o with
+                  | OSubmit _ ms _ _ _ _ =>
+                      if o_ok ob then map (fun p => (p, ms)) (filter (fun p => negb (memN p (o_live prev))) (o_live ob)) ++ reg
+                      else reg
+                  | _ => reg
+                  end in
       let errs := tag (Bool.eqb ok (o_ok ob)) "corr:accepted/rejected" ++
                   corr_checks c universe users s' ob ++
-                  prop_checks (c_unsanct c) universe users cancelled' prev o ob in
-      let kn := if existsb (fun p => memN p cancelled') (stale_pids ob)
-                then [at_step i known_cancel_tag] else [] in
-      let known' := match known with [] => kn | _ => known end in
+                  prop_checks (c_unsanct c) universe users cancelled' reg' prev o ob in
+      let kn1 := if existsb (fun p => memN p cancelled') (stale_pids ob)
+                 then [known_cancel_tag] else [] in
+      let known'' := match known with [] => map (at_step i) kn1 | _ => known end in
       match errs with
-      | [] => check_hist c universe users s' ob cancelled' (N.succ i) known' rest
+      | [] => check_hist c universe users s' ob cancelled' reg' (N.succ i) known'' rest
       | e => map (at_step i) e
       end
   end.
@@ -156,12 +205,25 @@ Definition bal_of (l : list (N * Z)) : N -> Z := fun a => lookup_bal l a.
     [before] by the named route (bank send, multi-send, delegation, gov deposit, fee transfer,
     marker transfer by the holder, forced marker transfer by an administrator on its behalf ...).
     [sanctioned] is the implementation's IsSanctioned answer before the attempt. *)
+Definition route_config : config :=
+  {| c_unsanct := []; c_gov_min := (1, 0); c_exp_min := (5, 0); c_thr := 500; c_exp_thr := 667; c_veto := 334;
+     c_burn_veto := true; c_burn_quorum := false; c_burn_prevote := false |}.
+
 Definition model_route (sanctioned : bool) (before amt : Z) : bool * Z :=
-  let c := {| c_unsanct := []; c_gov_min := (1, 0) |} in
+  let c := route_config in
   let s0 := init (0, 0) (0, 0) 1%N 0 (fun _ => before) (fun _ => 0) in
   let s1 := if sanctioned then set_perm s0 [0%N] else s0 in
   let '(s2, ok) := step c s1 (OPayFee 0%N amt) in
   (ok, bal s2 0%N).
+
+(** Routes that take nothing out of the watched account's balance (an undelegation, a reward
+    withdrawal, a released hold, a quarantine payout of funds it sent earlier): the model has no
+    debit for them, so they are accepted whatever the account's status; the property only asks
+    that the balance does not go down. *)
+Definition check_flow (name how : string) (sanctioned : bool) (before : Z) (ok : bool) (after : Z) : list string :=
+  let w := (name ++ " (" ++ how ++ ")")%string in
+  tag ok ("corr:route without a debit rejected: " ++ w)%string ++
+  tag (negb sanctioned || (before <=? after)) ("prop:balance of a sanctioned account decreased via " ++ w)%string.
 
 Definition check_route (name how : string) (sanctioned : bool) (before amt : Z) (ok : bool) (after : Z)
   : list string :=
@@ -175,21 +237,22 @@ Definition check_route (name how : string) (sanctioned : bool) (before amt : Z) 
       ("prop:unsanctioned account could not move its funds via " ++ w)%string.
 
 Inductive case :=
-| CHist (unsanctionable : list N) (gov_min : amt2) (universe users : list N)
+| CHist (c : config) (universe users : list N)
         (first_id : N) (t0 : Z) (ob0 : obs) (steps : list (op * obs))
-| CRoute (name how : string) (sanctioned : bool) (before amt : Z) (ok : bool) (after : Z).
+| CRoute (name how : string) (sanctioned : bool) (before amt : Z) (ok : bool) (after : Z)
+| CFlow (name how : string) (sanctioned : bool) (before : Z) (ok : bool) (after : Z).
 
 Definition check (k : case) : list string :=
   match k with
-  | CHist un gmin universe users first_id t0 ob0 steps =>
-      let c := {| c_unsanct := un; c_gov_min := gmin |} in
+  | CHist c universe users first_id t0 ob0 steps =>
       let s0 := init (o_smin ob0) (o_umin ob0) first_id t0 (bal_of (o_bals ob0)) (bal_of (o_balsb ob0)) in
       match corr_checks c universe users s0 ob0 ++
-            prop_checks un universe users [] ob0 (OVote 0%N true) ob0 with
-      | [] => check_hist c universe users s0 ob0 [] 1%N [] steps
+            prop_checks (c_unsanct c) universe users [] [] ob0 (OVote 0%N (1000, 0, 0, 0)) ob0 with
+      | [] => check_hist c universe users s0 ob0 [] [] 1%N [] steps
       | e => map (at_step 0%N) e
       end
   | CRoute name how sanctioned before amt ok after => check_route name how sanctioned before amt ok after
+  | CFlow name how sanctioned before ok after => check_flow name how sanctioned before ok after
   end.
 
 Definition check_all := check_list check.
